@@ -135,14 +135,16 @@ Section Faa.
       - rewrite faa_tg. apply (iv_next c s gh A).
       - rewrite faa_tg. intros H. apply tripped_mono. apply (iv_rot_trip c s gh A H).
       - intros g0 H. apply tripped_mono. apply (iv_trip c s gh A g0 H).
-      - intros p' Hp' Hn0. rewrite faa_tg in *. rewrite faa_toff. unfold gh'. rewrite Hgen.
-        destruct (p' =? p) eqn:E.
-        + apply Z.eqb_eq in E. subst p'. rewrite Htg. rewrite claims_add_same.
-          pose proof (iv_chain c s gh A p Hp) as Hc. rewrite Htg in Hc. specialize (Hc ltac:(lia)).
-          replace (a + d) with (e_b enew) by (cbn; rewrite Hlo; reflexivity).
-          apply (chain_app _ _ (toff s p) enew Hc); [cbn; rewrite Hlo; reflexivity | cbn; lia].
-        + rewrite claims_add_other; [apply (iv_chain c s gh A p' Hp' Hn0)|].
-          intros Heq. rewrite <- Htg in Heq. apply (tg_inj s gh p' p A Hp' Hp) in Heq. lia.
+      - intros g0 Hn0. unfold gh'. rewrite Hgen. destruct (iv_chain_all c s gh A g0 Hn0) as (hi & Hc & Hhi).
+        destruct (Z.eq_dec g0 g) as [-> | Hne].
+        + exists (a + d). rewrite claims_add_same. rewrite <- (Hhi p Hp Htg) in Hc. split.
+          * replace (a + d) with (e_b enew) by (cbn; rewrite Hlo; reflexivity).
+            apply (chain_app _ _ (toff s p) enew Hc); [cbn; rewrite Hlo; reflexivity | cbn; lia].
+          * intros p' Hp' Hq. rewrite faa_tg in Hq. rewrite faa_toff.
+            assert (p' = p) by (apply (tg_inj s gh p' p A Hp' Hp); lia). subst p'. rewrite Z.eqb_refl. reflexivity.
+        + exists hi. rewrite claims_add_other by assumption. split; [assumption|].
+          intros p' Hp' Hq. rewrite faa_tg in Hq. rewrite faa_toff. destruct (p' =? p) eqn:E; [|apply Hhi; assumption].
+          apply Z.eqb_eq in E. subst p'. lia.
       - intros g0 Hg0. unfold gh'. rewrite Hgen. cbn [add_claim g_cleaned]. rewrite claims_add_other.
         + apply (iv_empty c s gh A g0). destruct Hg0 as [Hg0 | (Hg1 & Hg2)]; [left; assumption | right].
           split; [assumption|]. intros p' Hp'. specialize (Hg2 p' Hp'). rewrite faa_tg in Hg2. assumption.
